@@ -295,10 +295,15 @@ def obligations_from(result, gi):
                 clabel = None
                 for s in sec:
                     if s.get("label") == "failed precondition":
-                        cf = gi.func_at(s["line_start"]) if s.get("file_name", "").endswith("indextree_vx.rs") else None
+                        fname = s.get("file_name", "")
+                        cf = gi.func_at(s["line_start"]) if re.search(r"indextree_vx\w*\.rs$", fname) else None
                         if cf:
                             callee = cf["name"]
-                            clabel, _ = gi.label_at(s["line_start"], cf)
+                            clabel, cprops = gi.label_at(s["line_start"], cf)
+                            if cprops:
+                                lprops = cprops       # the clause says which properties it protects
+                            elif cf["mode"] == "proof" and cf["props"]:
+                                lprops = [p for p in cf["props"]]   # a proof step: the properties the lemma serves
                             if not clabel:
                                 clabel = gi.lines[s["line_start"] - 1].strip()[:60]
                         else:
